@@ -93,6 +93,11 @@ def gen_case(rng, quick):
     nx, ny = rng.randint(1, nmax), rng.randint(1, nmax)
     cfam, cell = gen_cell(rng, d, small)
     rows, how = gen_points(rng, d, nx + ny, cell, small)
+    if rng.random() < 0.2:
+        # every point of both sets inside the centred primary cell (|x_k| <= c_k/2): differences
+        # still reach a whole cell length and must be folded
+        rows = [[rng.randint(-8, 8) / 16.0 * cell[k] for k in range(d)] for _ in range(nx + ny)]
+        how = ["inside"] * (nx + ny)
     case = dict(kind=kind, d=d, X=rows[:nx], Y=rows[nx:], how=how, cell=cell, cell_family=cfam,
                 squared=rng.random() < 0.5, mismatch=None)
     if rng.random() < 0.12:
